@@ -28,16 +28,37 @@ def log(*a):
 
 
 def run(cmd, cwd=None, env=None, timeout=None):
+    """run a tool in its own process group; output goes to temp files (orphaned solver children may keep a pipe open
+    after the tool itself exits), and the whole group is killed afterwards"""
+    import signal
     e = dict(os.environ)
     e.update(env or {})
     e.setdefault("CARGO_NET_OFFLINE", "true")
     t0 = time.time()
+    fo = tempfile.TemporaryFile()
+    fe = tempfile.TemporaryFile()
+    p = subprocess.Popen(cmd, cwd=cwd, env=e, stdout=fo, stderr=fe, start_new_session=True)
+    rc = None
     try:
-        p = subprocess.run(cmd, cwd=cwd, env=e, stdout=subprocess.PIPE, stderr=subprocess.PIPE, timeout=timeout)
-        return p.returncode, p.stdout.decode("utf-8", "replace"), p.stderr.decode("utf-8", "replace"), time.time() - t0
-    except subprocess.TimeoutExpired as ex:
-        subprocess.run(["pkill", "-f", "cbmc"], stdout=subprocess.DEVNULL, stderr=subprocess.DEVNULL) if "kani" in " ".join(cmd) else None
-        return 124, (ex.stdout or b"").decode("utf-8", "replace"), (ex.stderr or b"").decode("utf-8", "replace") + "\nTIMEOUT", time.time() - t0
+        rc = p.wait(timeout=timeout)
+    except subprocess.TimeoutExpired:
+        rc = 124
+    finally:
+        try:
+            os.killpg(p.pid, signal.SIGKILL)
+        except Exception:
+            pass
+        try:
+            p.wait(timeout=10)
+        except Exception:
+            pass
+    fo.seek(0)
+    fe.seek(0)
+    out = fo.read().decode("utf-8", "replace")
+    err = fe.read().decode("utf-8", "replace")
+    if rc == 124:
+        err += "\nTIMEOUT"
+    return rc, out, err, time.time() - t0
 
 
 # ------------------------------------------------------------------ scratch
